@@ -21,10 +21,10 @@ from harness import framers, aioloop
 from pymodbus.datastore import ModbusServerContext
 
 FRONTS = {
-    'sync-tcp': ('stream', ('tcp', 'rtu', 'ascii', 'binary')),
+    'sync-tcp': ('stream', ('tcp', 'rtu', 'ascii', 'binary', 'tls')),
     'sync-serial': ('stream', ('rtu', 'ascii', 'binary')),
     'sync-udp': ('dgram', ('tcp',)),
-    'aio-tcp': ('stream', ('tcp', 'rtu', 'ascii', 'binary')),
+    'aio-tcp': ('stream', ('tcp', 'rtu', 'ascii', 'binary', 'tls')),
     'aio-udp': ('dgram', ('tcp',)),
     'tw-tcp': ('stream', ('tcp', 'rtu', 'ascii', 'binary')),
     'tw-udp': ('dgram', ('tcp',)),
